@@ -80,6 +80,30 @@ fn describe(e: &error::Error, sources: &[(String, String)]) -> String
 				{
 					status.push(format!("nocode{}{}", color as u8, ascii as u8));
 				}
+				if !color
+				{
+					// the published tag of the code (docs/errors.md: `E<code>` for errors, `L<code>` for
+					// lints) and its kind head the report: `[L1800] Warning:`
+					let code = e.code();
+					let want = if code < 1000
+					{
+						format!("[E{}] Error:", code)
+					}
+					else if code < 2000
+					{
+						format!("[L{}] Warning:", code)
+					}
+					else
+					{
+						format!("[L{}] Advice:", code)
+					};
+					let first = text.lines().find(|l| !l.trim().is_empty()).unwrap_or("");
+					if !first.starts_with(&want)
+					{
+						let shown: String = first.chars().take(24).filter(|c| !c.is_whitespace()).collect();
+						status.push(format!("tag{}", shown));
+					}
+				}
 				if !color && buf.contains(&0x1b)
 				{
 					status.push(format!("esc{}{}", color as u8, ascii as u8));
